@@ -59,13 +59,14 @@ package gocvss40
 //@   ensures[error_value] (=> (not (isnil result)) (= result (ite (< (midx40 abv) 0) (PErr T_ErrInvalidMetric abv) ErrInvalidMetricValue)))
 //@   ensures[err_unknown_metric] (=> (< (midx40 abv) 0) (and (is-ErrInvalidMetric result) (str= (pabv result) abv)))
 //@   ensures[err_illegal_value] (=> (and (>= (midx40 abv) 0) (= (vcode40 (midx40 abv) value) #xff)) (= result ErrInvalidMetricValue))
-//@   allocs 0
+//@   ensures[no_allocation_known_metric] (=> (>= (midx40 abv) 0) (= allocs (old allocs)))
 
 //@ func (CVSS40).Get(cvss40, abv)
 //@   requires[wf] (wf40 cvss40)
 //@   ensures[known_metric_value] (=> (>= (midx40 abv) 0) (and (isnil result.1) (= (vcode40 (midx40 abv) result.0) (field40 cvss40 (midx40 abv))) (not (= (vcode40 (midx40 abv) result.0) #xff))))
 //@   ensures[nonempty] (=> (>= (midx40 abv) 0) (> (len result.0) 0))
 //@   ensures[unknown_metric] (=> (< (midx40 abv) 0) (and (is-ErrInvalidMetric result.1) (str= (pabv result.1) abv) (= (len result.0) 0)))
+//@   ensures[no_allocation_known_metric] (=> (>= (midx40 abv) 0) (= allocs (old allocs)))
 
 //@ func validate(value, enabled)
 //@   requires[short_list] (<= (len enabled) 255)
@@ -82,6 +83,73 @@ package gocvss40
 
 //@ func mod(base, modified) pure
 
+// ---- Vector / lenVec (C02, C08, C17): the serialiser writes the canonical form in one allocation ----
+
+//@ func lenVec(cvss40)
+//@   requires[wf] (wf40 cvss40)
+//@   inline get Get
+//@   lemma_chain[partial_sum_1] at l#1 havoc l : (= l (segpos40_12 cvss40))
+//@   lemma_chain[partial_sum_2] at l#2 havoc l : (= l (segpos40_13 cvss40))
+//@   lemma_chain[partial_sum_3] at l#3 havoc l : (= l (segpos40_14 cvss40))
+//@   lemma_chain[partial_sum_4] at l#4 havoc l : (= l (segpos40_15 cvss40))
+//@   lemma_chain[partial_sum_5] at l#5 havoc l : (= l (segpos40_16 cvss40))
+//@   lemma_chain[partial_sum_6] at l#6 havoc l : (= l (segpos40_17 cvss40))
+//@   lemma_chain[partial_sum_7] at l#7 havoc l : (= l (segpos40_18 cvss40))
+//@   lemma_chain[partial_sum_8] at l#8 havoc l : (= l (segpos40_19 cvss40))
+//@   lemma_chain[partial_sum_9] at l#9 havoc l : (= l (segpos40_20 cvss40))
+//@   lemma_chain[partial_sum_10] at l#10 havoc l : (= l (segpos40_21 cvss40))
+//@   lemma_chain[partial_sum_11] at l#11 havoc l : (= l (segpos40_22 cvss40))
+//@   lemma_chain[partial_sum_12] at l#12 havoc l : (= l (segpos40_23 cvss40))
+//@   lemma_chain[partial_sum_13] at l#13 havoc l : (= l (segpos40_24 cvss40))
+//@   lemma_chain[partial_sum_14] at l#14 havoc l : (= l (segpos40_25 cvss40))
+//@   lemma_chain[partial_sum_15] at l#15 havoc l : (= l (segpos40_26 cvss40))
+//@   lemma_chain[partial_sum_16] at l#16 havoc l : (= l (segpos40_27 cvss40))
+//@   lemma_chain[partial_sum_17] at l#17 havoc l : (= l (segpos40_28 cvss40))
+//@   lemma_chain[partial_sum_18] at l#18 havoc l : (= l (segpos40_29 cvss40))
+//@   lemma_chain[partial_sum_19] at l#19 havoc l : (= l (segpos40_30 cvss40))
+//@   lemma_chain[partial_sum_20] at l#20 havoc l : (= l (segpos40_31 cvss40))
+//@   ensures[exact] (= result (canonLen40 cvss40))
+//@   ensures[no_allocation] (= allocs (old allocs))
+
+//@ func (CVSS40).Vector(cvss40)
+//@   requires[wf] (wf40 cvss40)
+//@   opt prune_infeasible
+//@   inline mandatory notMandatory get Get
+//@   lemma_chain[prefix_0] after mandatory#1 havoc b : (canonPrefix40_0 (bufstr b) cvss40)
+//@   lemma_chain[prefix_1] after mandatory#2 havoc b : (canonPrefix40_1 (bufstr b) cvss40)
+//@   lemma_chain[prefix_2] after mandatory#3 havoc b : (canonPrefix40_2 (bufstr b) cvss40)
+//@   lemma_chain[prefix_3] after mandatory#4 havoc b : (canonPrefix40_3 (bufstr b) cvss40)
+//@   lemma_chain[prefix_4] after mandatory#5 havoc b : (canonPrefix40_4 (bufstr b) cvss40)
+//@   lemma_chain[prefix_5] after mandatory#6 havoc b : (canonPrefix40_5 (bufstr b) cvss40)
+//@   lemma_chain[prefix_6] after mandatory#7 havoc b : (canonPrefix40_6 (bufstr b) cvss40)
+//@   lemma_chain[prefix_7] after mandatory#8 havoc b : (canonPrefix40_7 (bufstr b) cvss40)
+//@   lemma_chain[prefix_8] after mandatory#9 havoc b : (canonPrefix40_8 (bufstr b) cvss40)
+//@   lemma_chain[prefix_9] after mandatory#10 havoc b : (canonPrefix40_9 (bufstr b) cvss40)
+//@   lemma_chain[prefix_10] after mandatory#11 havoc b : (canonPrefix40_10 (bufstr b) cvss40)
+//@   lemma_chain[prefix_11] after notMandatory#1 havoc b : (canonPrefix40_11 (bufstr b) cvss40)
+//@   lemma_chain[prefix_12] after notMandatory#2 havoc b : (canonPrefix40_12 (bufstr b) cvss40)
+//@   lemma_chain[prefix_13] after notMandatory#3 havoc b : (canonPrefix40_13 (bufstr b) cvss40)
+//@   lemma_chain[prefix_14] after notMandatory#4 havoc b : (canonPrefix40_14 (bufstr b) cvss40)
+//@   lemma_chain[prefix_15] after notMandatory#5 havoc b : (canonPrefix40_15 (bufstr b) cvss40)
+//@   lemma_chain[prefix_16] after notMandatory#6 havoc b : (canonPrefix40_16 (bufstr b) cvss40)
+//@   lemma_chain[prefix_17] after notMandatory#7 havoc b : (canonPrefix40_17 (bufstr b) cvss40)
+//@   lemma_chain[prefix_18] after notMandatory#8 havoc b : (canonPrefix40_18 (bufstr b) cvss40)
+//@   lemma_chain[prefix_19] after notMandatory#9 havoc b : (canonPrefix40_19 (bufstr b) cvss40)
+//@   lemma_chain[prefix_20] after notMandatory#10 havoc b : (canonPrefix40_20 (bufstr b) cvss40)
+//@   lemma_chain[prefix_21] after notMandatory#11 havoc b : (canonPrefix40_21 (bufstr b) cvss40)
+//@   lemma_chain[prefix_22] after notMandatory#12 havoc b : (canonPrefix40_22 (bufstr b) cvss40)
+//@   lemma_chain[prefix_23] after notMandatory#13 havoc b : (canonPrefix40_23 (bufstr b) cvss40)
+//@   lemma_chain[prefix_24] after notMandatory#14 havoc b : (canonPrefix40_24 (bufstr b) cvss40)
+//@   lemma_chain[prefix_25] after notMandatory#15 havoc b : (canonPrefix40_25 (bufstr b) cvss40)
+//@   lemma_chain[prefix_26] after notMandatory#16 havoc b : (canonPrefix40_26 (bufstr b) cvss40)
+//@   lemma_chain[prefix_27] after notMandatory#17 havoc b : (canonPrefix40_27 (bufstr b) cvss40)
+//@   lemma_chain[prefix_28] after notMandatory#18 havoc b : (canonPrefix40_28 (bufstr b) cvss40)
+//@   lemma_chain[prefix_29] after notMandatory#19 havoc b : (canonPrefix40_29 (bufstr b) cvss40)
+//@   lemma_chain[prefix_30] after notMandatory#20 havoc b : (canonPrefix40_30 (bufstr b) cvss40)
+//@   lemma_chain[prefix_31] after notMandatory#21 havoc b : (canonPrefix40_31 (bufstr b) cvss40)
+//@   ensures[canonical] (isCanon40 result cvss40)
+//@   ensures[one_allocation] (= allocs (+ (old allocs) 1))
+
 // ---- Rating (C15) ----
 
 //@ func Rating(score)
@@ -92,7 +160,7 @@ package gocvss40
 //@   ensures[high]     (=> (= (ratingClass score) 3) (and (isnil result.1) (str= result.0 "HIGH")))
 //@   ensures[critical] (=> (= (ratingClass score) 4) (and (isnil result.1) (str= result.0 "CRITICAL")))
 //@   ensures[out_of_bounds] (=> (= (ratingClass score) (- 1)) (and (= result.1 ErrOutOfBoundsScore) (= (len result.0) 0)))
-//@   allocs 0
+//@   ensures[no_allocation] (= allocs (old allocs))
 
 // ---- Nomenclature (C16) ----
 
@@ -101,7 +169,7 @@ package gocvss40
 //@   ensures[bt]  (= (str= result "CVSS-BT")  (and (threatDefined40 cvss40) (not (envDefined40 cvss40))))
 //@   ensures[be]  (= (str= result "CVSS-BE")  (and (not (threatDefined40 cvss40)) (envDefined40 cvss40)))
 //@   ensures[bte] (= (str= result "CVSS-BTE") (and (threatDefined40 cvss40) (envDefined40 cvss40)))
-//@   allocs 0
+//@   ensures[no_allocation] (= allocs (old allocs))
 
 // ---- ParseVector (C01, C06, C13, C18) against the reference fold parseRes40 ----
 
@@ -115,6 +183,7 @@ package gocvss40
 //@   loop 1 invariant[nosep] (forall ((p Int)) (! (=> (and (< (+ (+ vector.off 8) cut) p) (< p (+ (+ vector.off 8) i))) (not (= (select vector.arr p) #x2f))) :pattern ((select vector.arr p))))
 //@   loop 1 invariant[fold] (let ((V (substr vector 8 (len vector)))) (= (fold40 V 0 0 noVals) (fold40 V cut (flat40 slci orderi) (valsarr40 cvss40))))
 //@   loop 1 invariant[wf] (wf40 cvss40)
+//@   loop 1 invariant[one_allocation_so_far] (= allocs (+ (old allocs) 1))
 //@   loop 1 decreases (- (+ (len vector) 2) i)
 //@   loop 2 invariant[walk] (let ((M (midx40 abv)) (P (flat40 (outer slci) (outer orderi))) (F (flat40 slci orderi))) (and (validpos40 slci orderi) (<= P F) (not (and (<= P M) (< M F))) (=> (< P NMAND40) (= F P))))
 //@   loop 2 decreases (- 33 (flat40 slci orderi))
@@ -127,3 +196,4 @@ package gocvss40
 //@   ensures[accept_implies_prefix] (=> (isnil result.1) (hasHeader40 vector))
 //@   ensures[accept_object] (=> (isnil result.1) (and (not (isnil result.0)) (wf40 (deref result.0)) (forall-in (m 0 31) (= (field40 (deref result.0) m) (select (p.vals (parseRes40 vector)) m)))))
 //@   ensures[reject_nil] (=> (not (isnil result.1)) (isnil result.0))
+//@   ensures[allocation_budget] (=> (isnil result.1) (<= allocs (+ (old allocs) 1)))
